@@ -659,8 +659,8 @@ def run_e2e(case, scratch, rng_sizes=None):
             obs['pack_error'] = 'decodeError'
         except UnicodeEncodeError:
             obs['pack_error'] = 'nameNotAscii'
-        except AttributeError:
-            obs['pack_error'] = 'noSuchModule'
+        except AttributeError as e:
+            obs['pack_error'] = classify_attribute_error(e)
     finally:
         ssh.importlib = old_imp
     obs['zlog'] = zlog
@@ -691,6 +691,8 @@ def e2e_oracle(case, obs):
     """-> list of (key, expected, observed)"""
     out = []
     asm, mods = e2e_expected(case)
+    if is_artefact(obs['pack_error']):
+        return out
     if obs['pack_error']:
         out.append(('C18:pack:raised-' + obs['pack_error'], 'modules packaged', obs['pack_error']))
         return out
@@ -901,7 +903,7 @@ class RecFile:
 
     def write(self, b):
         self.nwrites += 1
-        if self.nwrites <= 2 or not self.grants:
+        if not any(k == 'r' for k, _d in self.events) or not self.grants:    # the upload: taken whole
             self.events.append(('w', bytes(b)))
             return len(b)
         g = self.grants.pop(0)
@@ -931,6 +933,64 @@ class FakeSock:
 
     def makefile(self, mode, buffering=None):
         return self.files['r' if 'r' in mode else 'w']
+
+    def __getattr__(self, name):
+        # settimeout, setsockopt, setblocking, ...: harmless on the recording files; answered by a real socket
+        # so that code using them is not failed by the fake
+        import socket as _socket
+        if '_real' not in self.__dict__:
+            self.__dict__['_real'] = _socket.socket(_socket.AF_UNIX, _socket.SOCK_STREAM)
+        return getattr(self.__dict__['_real'], name)
+
+
+def call_client_main(client, opts, listener, fw):
+    """the real client._main with the session options bound to its parameters BY NAME"""
+    import inspect
+    params = list(inspect.signature(client._main).parameters)
+    base = dict(tcp_listener=listener, udp_listener=None, fw=fw, ssh_cmd=None, remotename=None, python=None,
+                dns_listener=None, seed_hosts=None, daemon=False, add_cmd_delimiter=False, remote_shell=None)
+    kw = {}
+    for prm in params:
+        if prm in base:
+            kw[prm] = base[prm]
+        elif prm in opts:
+            kw[prm] = opts[prm]
+        else:
+            kw[prm] = None
+    return client._main(**kw)
+
+
+class _Listener:
+    v4 = object()
+    v6 = None
+
+    def add_handler(self, *a, **k):
+        pass
+
+
+class _Fw:
+    method = None
+    auto_nets = []
+
+
+def classify_attribute_error(e):
+    """`find_spec` returned None (a module the client does not have) is the code's own failure; any other
+    AttributeError under the fakes is a gap of the fakes, not evidence about the property"""
+    msg = str(e)
+    if "'NoneType' object has no attribute" in msg and ('origin' in msg or 'loader' in msg):
+        return 'noSuchModule'
+    return 'fake-incomplete:AttributeError:' + msg[:120]
+
+
+ARTEFACTS = []
+
+
+def is_artefact(err):
+    if bool(err) and str(err).startswith('fake-incomplete'):
+        if str(err) not in ARTEFACTS:
+            ARTEFACTS.append(str(err))
+        return True
+    return False
 
 
 class _Stop(Exception):
@@ -1004,20 +1064,8 @@ def run_connect(case, scratch, dry=False, via_main=False, server_chunks=None, gr
     try:
         try:
             if via_main:
-                class L:
-                    v4 = object()
-                    v6 = None
-
-                    def add_handler(self, *a, **k):
-                        pass
-
-                class Fw:
-                    method = None
-                    auto_nets = []
                 try:
-                    client._main(L(), None, Fw(), None, None, None, opts['latency_control'],
-                                 opts['latency_buffer_size'], None, None, opts['auto_hosts'], opts['auto_nets'],
-                                 False, opts['to_nameserver'], False, None)
+                    call_client_main(client, opts, _Listener(), _Fw())
                     obs['outcome'] = 'returned'
                 except _Stop:
                     obs['outcome'] = 'ok'
@@ -1038,7 +1086,7 @@ def run_connect(case, scratch, dry=False, via_main=False, server_chunks=None, gr
         except AttributeError as e:
             if dry:
                 raise
-            obs['error'] = 'noSuchModule'
+            obs['error'] = classify_attribute_error(e)
     finally:
         sys.stderr = old_err
         ssh.importlib, ssh.zlib, ssh.socket, ssh.ssubprocess = saved['importlib'], saved['zlib'], saved['socket'], saved['ssubprocess']
@@ -1087,9 +1135,14 @@ def connect_check(ctx, case, obs, log):
     # the compressor is called once per module, in upload order: the call that belongs to a name that
     # was never looked up as a file is the one that was handed the rendered options
     explicit_fed = []
-    if len(writes) == 2:
+    # the upload is whatever was written, in however many write() calls; it is split where the one-liner's
+    # read of the assembler ends
+    up = b''.join(writes)
+    m0 = re.search(r'stdin\.read\((\d+)\)', ' '.join(obs['popen'][0])) if obs['popen'] else None
+    nasm0 = int(m0.group(1)) if m0 else 0
+    if up:
         try:
-            _a, mods0, _r = independent_parse(writes[0] + writes[1], len(writes[0]))
+            _a, mods0, _r = independent_parse(up, nasm0)
             for i, (n, _d) in enumerate(mods0):
                 if n not in obs['asked'] and i < len(obs['zlog']) and obs['zlog'][i][0] is not None:
                     explicit_fed.append(obs['zlog'][i][0])
@@ -1101,18 +1154,20 @@ def connect_check(ctx, case, obs, log):
     log.add('evalopts %s' % hexb(optdata), 'ok ' + opts_tok(eval_module(optdata)))
     line = 'connect opt=%s files=%s script=%s' % (
         hexb(optdata), ','.join(file_tok(n, d) for n, d in sorted(disk.items())) or '_', script_tok(obs['zlog']))
+    if is_artefact(obs['error']):
+        return
     if obs['error']:
         log.add(line, 'error ' + obs['error'])
         ctx.violation('C18:connect:raised-' + obs['error'], case=dict(stream='connect', level=case.get('level', 0), files={n: hexb(d) for n, d in case['files'].items()},
                                                                       options=[[k, v] for k, v in opts]),
                       expected='upload written', observed=obs['error'], kind='input')
         return
-    if len(writes) != 2:
+    if not up:
         ctx.violation('C18:connect:writes', case=dict(stream='connect', level=case.get('level', 0), files={n: hexb(d) for n, d in case['files'].items()},
                                                       options=[[k, v] for k, v in opts]),
-                      expected='exactly two writes (content, content2)', observed='%d writes' % len(writes), kind='input')
+                      expected='the upload is written', observed='nothing was written', kind='input')
         return
-    content, content2 = writes
+    content, content2 = up[:nasm0], up[nasm0:]
     log.add(line, 'ok content=%s content2=%s' % (sum_of(content), sum_of(content2)))
     log.nontrivial = True
     # --- oracle on the real upload, read with an independent parser
@@ -1279,7 +1334,10 @@ def main_case(ctx, rng, scratch, names, keys, log):
     cuts = sorted(set(rng.randrange(1, n) for _ in range(rng.choice([0, 1, 2, n // 2, n])))) if n > 1 else []
     chunks = [stream[a:b] for a, b in zip([0] + cuts, cuts + [n])]
     grant = rng.choice([None, 0, 1, 7, 15, 100])
-    files = {} if rng.random() < 0.05 else {n: b'# %d\n' % rng.randrange(100) for n in names + ['sshuttle.assembler']}
+    files = {n: b'# %d\n' % rng.randrange(100) for n in names}
+    files['sshuttle.server'] = SERVER_STANDIN
+    if rng.random() < 0.5:
+        opts = distinct_options(rng, keys)     # pairwise different: an option fed from its sibling's value shows
     case = dict(files={n: hexb(d) for n, d in files.items()}, options=opts, chunks=[hexb(c) for c in chunks], grant=grant,
                 level=next_level())
     ev, outcome, got = run_main(case, scratch)
@@ -1292,15 +1350,27 @@ def run_main(case, scratch):
     obs = run_connect(dict(files={n: common.unhex(d) for n, d in case.get('files', {}).items()},
                            options=[tuple(o) for o in case['options']], level=case.get('level', 0)), scratch,
                       via_main=True, server_chunks=chunks, grants=[case['grant']], stop_at=3)
+    case['_obs'] = obs
     return obs['events'], obs['outcome'], obs.get('got')
 
 
-def main_trace(events, outcome, got):
-    """canonical trace: writes, and `sync` at the point where the last handshake read returned"""
+def split_upload(events, nasm):
+    """what the client wrote before it first read the server's output, as (assembler part, rest)"""
+    first_read = next((i for i, (k, _d) in enumerate(events) if k == 'r'), len(events))
+    up = b''.join(d for i, (k, d) in enumerate(events) if k == 'w' and i < first_read)
+    return up[:nasm], up[nasm:], first_read
+
+
+def main_trace(events, outcome, got, nasm):
+    """canonical trace: the upload (split where the one-liner's read ends), later writes, and `sync` at the
+    point where the last handshake read returned"""
+    c1, c2, first_read = split_upload(events, nasm)
     last_read = max([i for i, (k, _d) in enumerate(events) if k == 'r'], default=-1)
-    toks = []
+    toks = ['w:' + sum_of(c1), 'w:' + sum_of(c2)]
+    if last_read < 0 and outcome == 'ok':
+        toks.append('sync')
     for i, (k, d) in enumerate(events):
-        if k == 'w':
+        if k == 'w' and i >= first_read:
             toks.append('w:' + sum_of(d))
         if i == last_read and outcome == 'ok':
             toks.append('sync')
@@ -1312,43 +1382,98 @@ def main_trace(events, outcome, got):
 
 
 def main_check(ctx, case, events, outcome, got, log):
-    writes = [d for k, d in events if k == 'w']
-    c1 = writes[0] if writes else b''
-    c2 = writes[1] if len(writes) > 1 else b''
+    obs = case.pop('_obs', None) or {}
+    if is_artefact(obs.get('error')):
+        return
+    argv = obs['popen'][0] if obs.get('popen') else []
+    m = re.search(r'stdin\.read\((\d+)\)', ' '.join(argv))
+    nasm = int(m.group(1)) if m else 0
+    c1, c2, first_read = split_upload(events, nasm)
     line = 'main c1=%s c2=%s grant=%s srv=%s' % (hexb(c1), hexb(c2), 'N' if case['grant'] is None else case['grant'],
                                                 ','.join(c for c in case['chunks'] if c != '-') or '_')
-    log.add(line, main_trace(events, outcome, got))
+    log.add(line, main_trace(events, outcome, got, nasm))
     log.nontrivial = True
-    # oracle: no tunnel write between the upload and the read that completed the init string
-    first_read = next((i for i, (k, _d) in enumerate(events) if k == 'r'), len(events))
+    # oracle 1: no tunnel write between the upload and the read that completed the init string
     last_read = max([i for i, (k, _d) in enumerate(events) if k == 'r'], default=-1)
-    upload_writes = [i for i, (k, _d) in enumerate(events) if k == 'w' and i < first_read]
-    early = [i for i, (k, _d) in enumerate(events) if k == 'w' and i not in upload_writes[:2] and i < last_read]
+    early = [i for i, (k, _d) in enumerate(events) if k == 'w' and first_read <= i < last_read]
+    later = [i for i, (k, _d) in enumerate(events) if k == 'w' and i >= first_read]
     bad = None
-    if len(upload_writes) != 2:
-        bad = '%d writes before the first read of the server output (expected content, content2)' % len(upload_writes)
-    elif early:
+    if early:
         bad = 'write of %s before the init string was read' % sum_of(events[early[0]][1])
-    elif outcome == 'fatal' and len(writes) > 2:
+    elif outcome == 'fatal' and later:
         bad = 'write after a failed handshake'
+    # oracle 2: the upload the real client._main produced, decoded by the real bootstrap: the modules are the
+    # client's files and server.main is entered with the values client._main was given, name by name
+    r = None
+    if not obs.get('error') and nasm:
+        import random as _random
+        r = remote_run(c1 + c2, nasm, size_policy(_random.Random(case.get('level', 0)), 'rand'), 8192,
+                       {'sshuttle.server', 'sshuttle.cmdline_options'},
+                       pyscript=argv[2] if len(argv) == 3 and argv[1] == '-c' else None)
+        if r['end'] != 'done' or r['rest'] != b'':
+            bad = bad or 'upload does not assemble: end=%s, %d bytes left over' % (r['end'], len(r['rest']))
     if bad:
-        ctx.violation('C18:order:write-before-sync', case=dict(case, stream='main'),
-                      expected='writes before sync = [content, content2] only', observed=bad, kind='ops')
+        ctx.violation('C18:order:write-before-sync' if 'assemble' not in bad else 'C18:main:upload-corrupted',
+                      case=dict(case, stream='main'),
+                      expected='before sync the client writes the upload (assembler, packaged modules) and nothing else',
+                      observed=bad, kind='ops')
+    if r is not None and r['end'] == 'done':
+        kind, ent = entered_with(r['main_args'])
+        wrong = binding_problem([tuple(o) for o in case['options']], kind, ent)
+        if wrong:
+            ctx.violation('C18:options:client-main-to-server-main', case=dict(case, stream='main'),
+                          expected=['%s=%s' % (k, val_tok(v)) for k, v in case['options']], observed=wrong,
+                          note='real client._main given these session options -> real ssh.connect -> real assembler -> '
+                               'arguments of main bound by the real server.main parameter list', kind='input')
 
 
 # ---------------------------------------------------------------- (e) entering the real server.main
 
+_OBSERVED_KEYS = {}
+
+
+def observe_client_options(args):
+    """Run the real client._main with `args` (its own parameters, by name) up to its call of ssh.connect and
+    return the options mapping it hands over (None if it never gets there)."""
+    ssh, _ssnet, client, _helpers = _mods()
+    seen = {}
+
+    def recorder(*a, **k):
+        import inspect
+        try:
+            b = inspect.signature(real).bind(*a, **k)
+            seen['options'] = b.arguments.get('options')
+        except TypeError:
+            seen['options'] = k.get('options')
+        raise _Stop()
+    real = ssh.connect
+    old_err = sys.stderr
+    ssh.connect = recorder
+    sys.stderr = io.StringIO()
+    try:
+        try:
+            call_client_main(client, dict(args), _Listener(), _Fw())
+        except _Stop:
+            pass
+        except Exception:  # noqa
+            pass
+    finally:
+        ssh.connect = real
+        sys.stderr = old_err
+    o = seen.get('options')
+    return list(o.items()) if hasattr(o, 'items') else None
+
+
 def client_option_keys():
-    """the keys of `options=dict(...)` in the real client._main"""
-    import ast
-    with open(os.path.join(common.REPO, 'sshuttle', 'client.py'), 'rb') as f:
-        tree = ast.parse(f.read())
-    for c in ast.walk(tree):
-        if isinstance(c, ast.Call) and isinstance(c.func, ast.Attribute) and c.func.attr == 'connect':
-            for kw in c.keywords:
-                if kw.arg == 'options' and isinstance(kw.value, ast.Call):
-                    return [k.arg for k in kw.value.keywords]
-    return []
+    """the names of the session options: the keys of the mapping the real client._main passes to ssh.connect
+    (observed, whatever the shape of the code that builds it)"""
+    if common.REPO not in _OBSERVED_KEYS:
+        import inspect
+        client = _mods()[2]
+        params = list(inspect.signature(client._main).parameters)
+        got = observe_client_options({p_: ('c18-probe', i) for i, p_ in enumerate(params)})
+        _OBSERVED_KEYS[common.REPO] = [k for k, _v in got] if got else []
+    return list(_OBSERVED_KEYS[common.REPO])
 
 
 def distinct_options(rng, keys):
@@ -1521,7 +1646,9 @@ def run_connect_win32(case, scratch, limit):
             wfile._sock.shutdown(_socket.SHUT_WR)      # end of upload: lets the pump drain and finish
             if not done.wait(20):
                 obs['error'] = 'pump-did-not-finish'
-        except (UnicodeError, ImportError, SyntaxError, AttributeError, OSError) as e:
+        except AttributeError as e:
+            obs['error'] = classify_attribute_error(e)
+        except (UnicodeError, ImportError, SyntaxError, OSError) as e:
             obs['error'] = type(e).__name__
     finally:
         child_out.ev.set()
@@ -1539,11 +1666,108 @@ def run_connect_win32(case, scratch, limit):
 
 
 @leveled
+@leveled
+def run_connect_socket(case, scratch, bufsize):
+    """The posix branch of the real ssh.connect over a real socket pair whose kernel buffers are `bufsize`
+    bytes; the "child" (a thread holding the descriptor Popen was given) takes the upload slowly, so a write
+    larger than the buffers has to wait for it.  Returns what reached the child's stdin."""
+    import socket as _socket
+    import time as _time
+    ssh = _mods()[0]
+    fi = FakeImportlib(session_paths(case, scratch))
+    popen_args, got, fds, pairs = [], bytearray(), [], []
+    done = threading.Event()
+
+    def drain(fd):
+        try:
+            while True:
+                d = os.read(fd, 1500)
+                if not d:
+                    break
+                got.extend(d)
+                _time.sleep(0.0005)
+        except OSError:
+            pass
+        finally:
+            done.set()
+
+    class Proc:
+        pid = 4242
+
+        def poll(self):
+            return None
+
+    def popen(argv, stdin=None, **kw):
+        popen_args.append(list(argv))
+        fd = os.dup(stdin)                   # the child's inherited descriptor
+        fds.append(fd)
+        threading.Thread(target=drain, args=(fd,), daemon=True).start()
+        return Proc()
+
+    class SockMod:
+        def __getattr__(self, name):
+            return getattr(_socket, name)
+
+        def socketpair(self, *a, **k):
+            s1, s2 = _socket.socketpair(*a, **k)
+            for x in (s1, s2):
+                x.setsockopt(_socket.SOL_SOCKET, _socket.SO_SNDBUF, bufsize)
+                x.setsockopt(_socket.SOL_SOCKET, _socket.SO_RCVBUF, bufsize)
+            pairs.append((s1, s2))
+            return s1, s2
+    saved = (ssh.importlib, ssh.ssubprocess, ssh.socket)
+    old_err = sys.stderr
+    ssh.importlib = fi
+    ssh.ssubprocess = types.SimpleNamespace(Popen=popen, PIPE=subprocess.PIPE)
+    ssh.socket = SockMod()
+    sys.stderr = io.StringIO()
+    obs = dict(error=None)
+    rfile = wfile = None
+    try:
+        try:
+            _p, rfile, wfile = ssh.connect(None, None, None, None, False, None, dict(case['options']))
+            wfile._sock.shutdown(_socket.SHUT_WR)
+            if not done.wait(30):
+                obs['error'] = 'child-did-not-see-eof'
+        except AttributeError as e:
+            obs['error'] = classify_attribute_error(e)
+        except (UnicodeError, ImportError, SyntaxError) as e:
+            obs['error'] = type(e).__name__
+        except OSError as e:
+            obs['error'] = 'raised-' + type(e).__name__
+    finally:
+        ssh.importlib, ssh.ssubprocess, ssh.socket = saved
+        sys.stderr = old_err
+        for f in (rfile, wfile):
+            try:
+                if f is not None:
+                    f.close()
+            except OSError:
+                pass
+        done.wait(2)
+        for fd in fds:
+            try:
+                os.close(fd)
+            except OSError:
+                pass
+        for s1, s2 in pairs:
+            for x in (s1, s2):
+                try:
+                    x.close()
+                except OSError:
+                    pass
+    obs.update(stream=bytes(got), popen=popen_args, asked=[a for a in fi.asked if a != 'sshuttle.assembler'],
+               asked_all=list(fi.asked), paths=fi.paths)
+    return obs
+
+
 def run_session(case, scratch):
     """case: dict(files, options, transport='posix'|'win32', limit, policy, bufsize).  Real connect, the
     transport, then the real assembler on what arrived.  -> (obs, remote result or None)"""
     if case['transport'] == 'win32':
         obs = run_connect_win32(case, scratch, case.get('limit'))
+    elif case['transport'] == 'socket':
+        obs = run_connect_socket(case, scratch, case.get('sockbuf', 4096))
     else:
         obs = run_connect(dict(files=case['files'], options=case['options'], level=case.get('level', 0)), scratch)
         obs['stream'] = b''.join(d for k, d in obs['events'] if k == 'w')
@@ -1562,6 +1786,8 @@ def run_session(case, scratch):
 def session_problems(case, obs, r):
     """the property on one whole session start -> [(key, expected, observed)]"""
     opts = case['options']
+    if is_artefact(obs['error']):
+        return []
     if obs['error']:
         return [('C18:session:connect-raised', 'upload written', obs['error'])]
     disk = {n: file_bytes(obs['paths'].get(n)) for n in obs['asked_all'] if obs['paths'].get(n)}
@@ -1627,7 +1853,8 @@ def session_case_json(case):
 def session_case(ctx, case, scratch, log, seen):
     obs, r = run_session(case, scratch)
     ctx.count()
-    ctx.hist('session:%s%s' % (case['transport'], '' if case['transport'] == 'posix' else ':limit=%s' % case.get('limit')))
+    ctx.hist('session:%s%s' % (case['transport'], ':limit=%s' % case.get('limit') if case['transport'] == 'win32' else
+                               ':sockbuf=%s' % case.get('sockbuf') if case['transport'] == 'socket' else ''))
     if r is not None and not r['end'].startswith(('crashed', 'asmBroken')) and len(obs['stream']) <= 300000:
         log.add(boot_line(obs['nasm'], [], r, obs['stream']), boot_out(r))
         log.nontrivial = True
@@ -1736,6 +1963,16 @@ def session_cases(ctx, rng, scratch, names, okeys, logs):
         tr = 'win32' if i % 6 == 5 else 'posix'
         session_case(ctx, dict(files=files_for(True), options=opts, transport=tr, limit=rng.choice([None, 1000]),
                                policy=rng.choice(POLICIES), bufsize=8192, size_seed=rng.randrange(1 << 30),
+                               level=next_level()), scratch, lg, seen)
+    # the posix branch over a real socket pair: uploads several times larger than the kernel's socket buffers
+    for sockbuf, extra in [(4096, None), (4096, ('rnd', 70000)), (65536, ('rnd', 400000))] * ctx.scale(1, 3):
+        files, gen = {'sshuttle.server': SERVER_STANDIN}, {}
+        if extra:
+            n = rng.choice(blobs)
+            gen[n] = (extra[0], extra[1], rng.randrange(1 << 30))
+            files[n] = sized_source(*gen[n])
+        session_case(ctx, dict(files=files, gen=gen, options=distinct_options(rng, okeys), transport='socket', sockbuf=sockbuf,
+                               limit=None, policy=rng.choice([4096, 'all']), bufsize=8192, size_seed=rng.randrange(1 << 30),
                                level=next_level()), scratch, lg, seen)
     for limit in [None, 1, 1000, 4096] * ctx.scale(1, 4):
         for small in (True, False):
@@ -2001,6 +2238,7 @@ def case_unjson(c):
 def run(ctx):
     rng = ctx.rng
     _LEVEL['i'], _LEVEL['shift'], _LEVEL['hist'] = 0, ctx.seed, {}
+    del ARTEFACTS[:]
     scratch = Scratch()
     logs = []
     try:
@@ -2078,6 +2316,9 @@ def run(ctx):
             subprocess_case(ctx, rng.randrange(1 << 30), scratch, names, okeys, level=next_level())
     finally:
         scratch.close()
+    for a in ARTEFACTS:
+        ctx.corr_break('fakes', case=None, impl=a, model='-',
+                       note='the real code used something the OS-boundary fakes do not provide: no verdict from those cases')
     for lv, n in sorted(_LEVEL.get('hist', {}).items()):
         ctx.hist('client-verbosity:%d' % lv, n)
     for lg in logs:
